@@ -1081,13 +1081,16 @@ func (root *Root) Resolve(field *Field, args map[string]interface{}) (result int
 
 func (root *Root) subscribe(sub *Subscription) {
 	sub.prep(root)
+	verifPoint("sub.before", sub.sub)
 	root.subLock.Lock()
 	root.subscriptions = append(root.subscriptions, sub)
+	verifPoint("sub.locked", sub.sub)
 	root.subLock.Unlock()
 }
 
 // Unsubscribe from an event stream.
 func (root *Root) Unsubscribe(id string) (cnt int) {
+	verifPoint("unsub.before", id)
 	root.subLock.Lock()
 	for i := len(root.subscriptions) - 1; 0 <= i; i-- {
 		s := root.subscriptions[i]
@@ -1097,6 +1100,7 @@ func (root *Root) Unsubscribe(id string) (cnt int) {
 			cnt++
 		}
 	}
+	verifPoint("unsub.locked", id)
 	root.subLock.Unlock()
 
 	return
@@ -1109,6 +1113,7 @@ func (root *Root) AddEvent(id string, event interface{}) (cnt int, err error) {
 	vars := map[string]interface{}{}
 	var ea []error
 	var failed []*Subscription
+	verifPoint("pub.before", id)
 	root.subLock.Lock()
 	for _, s := range root.subscriptions {
 		if s.sub.Match(id) {
@@ -1121,10 +1126,12 @@ func (root *Root) AddEvent(id string, event interface{}) (cnt int, err error) {
 			}
 		}
 	}
+	verifPoint("pub.locked1", id)
 	root.subLock.Unlock()
 	if 0 < len(ea) {
 		err = Errors(ea)
 	}
+	verifPoint("pub.gap", id)
 	root.subLock.Lock()
 	for _, f := range failed {
 		for i := len(root.subscriptions) - 1; 0 <= i; i-- {
@@ -1134,6 +1141,7 @@ func (root *Root) AddEvent(id string, event interface{}) (cnt int, err error) {
 			}
 		}
 	}
+	verifPoint("pub.locked2", id)
 	root.subLock.Unlock()
 
 	return
